@@ -22,6 +22,10 @@ ORDER = {'E': 0, 'R': 1, 'S': 2, 'X': 3}
 # implementation side
 # ------------------------------------------------------------------------------------------------
 
+class _UnknownOp(Exception):
+    pass
+
+
 def _run_impl(case: dict) -> dict:
     import asyncio
     from unittest.mock import AsyncMock, Mock
@@ -36,6 +40,8 @@ def _run_impl(case: dict) -> dict:
 
     cfg = case['cfg']
     steps: list[dict] = []
+    import logging
+    logging.getLogger('aioslsk').setLevel(logging.CRITICAL + 1)
 
     async def main(loop):
         s = Settings(credentials={'username': 'u', 'password': 'p'})
@@ -155,10 +161,12 @@ def _run_impl(case: dict) -> dict:
                 elif k == 'sleep':
                     await simloop.advance(op[1])
                 else:
-                    raise ValueError(f'unknown op {op}')
+                    raise _UnknownOp(f'unknown op {op}')
+            except TimeoutError:        # wall-clock guard of vlib.simloop.run
+                raise
+            except _UnknownOp:
+                raise
             except BaseException as e:  # noqa — the real code raised into its caller: an observation
-                if isinstance(e, (ValueError, TimeoutError)) and 'unknown op' in str(e) or isinstance(e, TimeoutError):
-                    raise
                 st['raised'] = type(e).__name__
             st['t1'] = now()
             st['events'] = [list(x) for x in events]
@@ -176,7 +184,8 @@ def _run_impl(case: dict) -> dict:
         return {'late_errors': [list(x) for x in errors], 'keep': len(keep)}
 
     try:
-        res, loop = __import__('vlib.simloop', fromlist=['run']).run(main, start=START, wall_timeout=30.0)
+        from vlib import simloop as _sl
+        res, loop = _sl.run(main, start=START, wall_timeout=30.0)
         tail = {'late_errors': res['late_errors'], 'loop_exceptions': loop.exceptions}
     except Exception as e:  # harness-level failure of this case (e.g. the loop does not quiesce)
         tail = {'late_errors': [], 'loop_exceptions': [], 'harness': f'{type(e).__name__}: {e}'}
@@ -246,6 +255,24 @@ def _monitor(case: dict, tr: dict) -> list[Violation]:
                 f'{where}: {st["raised"]} escaped from the library into its caller '
                 '(for a WishlistInterval message that is the server reader loop; see C02)', observed=st['raised'])
             return vs
+        if st['clobber']:
+            # a ticket was handed out while a request with that ticket is registered: a violation when the two
+            # draws are fewer than one generator period apart, otherwise the end of the property's scope
+            tmp = dict(live)
+            draw_of = {rid: r['draw'] for rid, r in reqs.items()}
+            d = draws
+            for t, kind, tk, rid, stype, rtk in st['events']:
+                if kind == 'S':
+                    d += 1
+                    if tk in tmp and d - draw_of.get(tmp[tk], d) < period:
+                        bad('C18-ticket-reused', f'{where}: ticket {tk} given to a new request while request '
+                            f'#{tmp[tk]} is still registered ({d - draw_of.get(tmp[tk], d)} draws apart)', observed=tk)
+                        break
+                    tmp[tk] = rid
+                    draw_of[rid] = d
+                elif kind == 'X' and tmp.get(tk) == rid:
+                    del tmp[tk]
+            return vs
         # errors inside library tasks (timer tasks / wishlist task): "no later error"
         for t, typ, arg in st['errors']:
             r = next((q for q in reqs.values() if q['ticket'] == arg), None)
@@ -257,6 +284,11 @@ def _monitor(case: dict, tr: dict) -> list[Violation]:
                 bad('C18-task-error', f'{where}: {typ}({arg}) inside a library task', observed=[t, typ, arg])
         if k == 'wlmsg':
             wl_interval = op[1]
+        # a timer armed by an earlier call starts counting when the loop next runs (its task's first step)
+        if k == 'sleep':
+            for r in reqs.values():
+                if r['live'] and r.get('arm') is not None:
+                    r.update(deadline=st['t0'] + r['arm'], arm=None)
         # ---- events
         n_results = 0
         for t, kind, tk, rid, stype, rtk in st['events']:
@@ -275,8 +307,11 @@ def _monitor(case: dict, tr: dict) -> list[Violation]:
                     T = T if T else None
                 else:
                     T = cfg['rt'] if cfg['rt'] > 0 else None
-                reqs[rid] = {'ticket': tk, 'live': True, 'deadline': None if T is None else t + T, 'draw': draws,
-                             'by_user': False, 'removed_events': 0, 'created': t, 'why': 'created'}
+                reqs[rid] = {'ticket': tk, 'live': True, 'deadline': None, 'arm': T, 'draw': draws,
+                             'by_user': False, 'removed_events': 0, 'created': t,
+                             'why': f'created at t={t} with timeout {T}'}
+                if k == 'sleep' and T is not None:       # created by a wishlist round while the loop runs
+                    reqs[rid].update(deadline=t + T, arm=None)
                 live[tk] = rid
             elif kind == 'X':
                 r = reqs.get(rid)
@@ -289,6 +324,9 @@ def _monitor(case: dict, tr: dict) -> list[Violation]:
                         'removed the request', observed=[t, tk])
                 elif r['removed_events'] > 1 or not r['live']:
                     bad('C18-removed-twice', f'{where}: removal of ticket {tk} reported more than once', observed=[t, tk])
+                elif r['deadline'] is None and r.get('arm') is not None:
+                    bad('C18-removed-early', f'{where}: request {tk} removed before the loop could have started its '
+                        f'timer ({r["why"]})', observed=[t, tk])
                 elif r['deadline'] is None:
                     bad('C18-cancelled-timer-fired', f'{where}: request {tk} removed by a timer although it has no '
                         f'armed timeout ({r["why"]})', observed=[t, tk])
@@ -332,9 +370,9 @@ def _monitor(case: dict, tr: dict) -> list[Violation]:
             rid = live.get(op[1])
             if rid is not None:
                 if k == 'tcancel':
-                    reqs[rid].update(deadline=None, why='timer cancelled by the user')
+                    reqs[rid].update(deadline=None, arm=None, why='timer cancelled by the user')
                 else:
-                    reqs[rid].update(deadline=st['t1'] + op[2], why=f're-armed at t={st["t1"]} for {op[2]} s')
+                    reqs[rid].update(deadline=None, arm=op[2], why=f're-armed at t={st["t1"]} for {op[2]} s')
         # ---- registry = what events and calls say
         if sorted(live.keys()) != st['after']:
             bad('C18-registry-mismatch', f'{where}: SearchManager.requests = {st["after"]} but events/calls imply '
@@ -587,10 +625,10 @@ class C18(Property):
                 # compare up to (excluding) the first op at which a live ticket is re-used
                 cut = next((j for j, l in enumerate(ml) if l.split(' |')[0].endswith('clobber')), None)
                 cut_i = next((j for j, l in enumerate(il) if l.split(' |')[0].endswith('clobber')), None)
-                if cut is not None or cut_i is not None:
-                    a, b = (ml[:cut], il[:cut_i]) if cut == cut_i else (ml, il)
-                else:
-                    a, b = ml, il
+                # (which of two things due at one instant runs first is not fixed by asyncio; once tickets repeat,
+                #  "expiry then new request" and "new request then expiry" differ — the monitor judges re-use)
+                cuts = [x for x in (cut, cut_i) if x is not None]
+                a, b = (ml[:min(cuts)], il[:min(cuts)]) if cuts else (ml, il)
                 if a != b:
                     k = next((j for j, (x, y) in enumerate(zip(a, b)) if x != y), min(len(a), len(b)))
                     res.disagreements.append(Disagreement(
